@@ -77,10 +77,14 @@ impl<T: RefCnt> HybridProtection<T> {
         // First, we claim a debt slot and store the address of the atomic pointer there, so the
         // writer can optionally help us out with loading and protecting something.
         let gen = node.new_helping(storage as *const _ as usize);
-        // We already synchronized the start of the sequence by SeqCst in the new_helping vs swap on
-        // the pointer. We just need to make sure to bring the pointee in (this can be newer than
-        // what we got in the Debt)
-        let candidate = storage.load(Acquire);
+        // The start of the sequence is ordered by the SeqCst swap in new_helping vs the swap on the
+        // pointer in the writer. But that only orders the two swaps. This load has to take part in
+        // the same total order too (a SeqCst swap is not a fence): with mere Acquire it could
+        // legally return a pointer older than a writer's swap that comes before our control swap ‒
+        // a writer that has already walked past our node (seeing IDLE and no debt), so nobody
+        // would protect that stale candidate and we would confirm and use it after it was freed.
+        // It also brings the pointee in (SeqCst includes Acquire).
+        let candidate = storage.load(SeqCst);
 
         // Try to replace the debt with our candidate. If it works, we get the debt slot to use. If
         // not, we get a replacement value, already protected and a debt to take care of.
